@@ -18,7 +18,7 @@ func init() {
 		Name:  "REDEF",
 		Doc:   "filter-gated root edges, input-set provenance, exclusion of supplied inputs, output filter, forwarding of the generated function",
 		Run:   runRedef,
-		Floor: map[string]int{"REDEF-R1": 3, "REDEF-R2": 2, "REDEF-R3": 3, "REDEF-R4": 3, "REDEF-R5": 5},
+		Floor: map[string]int{"REDEF-R1": 3, "REDEF-R2": 2, "REDEF-R3": 3, "REDEF-R4": 4, "REDEF-R5": 5},
 	})
 }
 
@@ -429,6 +429,31 @@ func runRedef(c *Ctx) {
 		}
 		okOrder := vc != nil && pc != nil && nilCheckLit(core.Lits(core.Guards(pc.Block())), vc, true)
 		c.R.Add("REDEF-R4", "Redefine|outputs-validated-first", "Redefine", posOf(p, redefine), okOrder, "Redefine plans inputs only after the outputs passed the output filter", fmt.Sprintf("ok=%v", okOrder))
+		// … and no successful return bypasses that validation (a fast path in front of it would hand out a function whose
+		// outputs the filter rejects)
+		bypass := ""
+		if vc != nil {
+			verr := errOf(vc)
+			if verr == nil {
+				verr = vc
+			}
+			for _, r := range core.Returns(redefine) {
+				if len(r.Results) == 0 {
+					continue
+				}
+				ev := r.Results[len(r.Results)-1]
+				lits := core.Lits(core.Guards(r.Block()))
+				if !core.IsNilConst(ev) && nilCheckLit(lits, ev, false) {
+					continue // an error return
+				}
+				if !nilCheckLit(lits, verr, true) {
+					bypass = p.InstrPos(r)
+				}
+			}
+		}
+		c.R.Add("REDEF-R4", "Redefine|no-return-bypasses-validation", "Redefine", posOf(p, redefine), vc != nil && bypass == "",
+			"every return of Redefine that may succeed lies behind the nil-error branch of the output validation",
+			ternary(bypass == "", "all successful returns validated", "return at "+bypass+" is reachable without the output validation"))
 	}
 
 	// ---------------- R5: the generated function forwards to the original
